@@ -24,7 +24,7 @@ PROP_ASSUMPTIONS = {}
 BOUNDED = {}
 _NUC_VEC = ['Vector constructors from iterator ranges that are not pointers; reverse iterators (rbegin/rend/crbegin/crend); operator<=> (C++20); swap2 with size types other than 8/16 bit',
             'allocators other than amc::allocator (the allocate-relocate-deallocate path is exercised through the non trivially relocatable category only); element types with throwing moves; 32/64-bit and signed size types of the vectors']
-_NUC_FS = ['FlatSet: <=> (C++20); the polarity of <, <=, >, >= (the contracts pin the operand order and the ranges of the one lexicographical comparison, L0 returns an abstract result); reverse iterators; heterogeneous (transparent) lookups; insert(initializer_list), operator=(initializer_list), operator=(vector&&) (same code path as the bounded insert(first,last) / construction from a vector); copy assignment',
+_NUC_FS = ['FlatSet: <=> (C++20); reverse iterators; heterogeneous (transparent) lookups; insert(initializer_list), operator=(initializer_list), operator=(vector&&) (same code path as the bounded insert(first,last) / construction from a vector); copy assignment',
            'FlatSet merge x2, insert(first,last), construction from a vector: bounded stand-ins only (see coverage.bounded)']
 _NUC_SS = ['SmallSet: comparison operators (is_permutation, lambdas, std::visit), insert(first,last), insert(initializer_list), constructors / destructor / copy / move, the std::set-backed instantiation (variant iterators), rbegin/rend',
            'SmallSet::merge: bounded stand-in only (see coverage.bounded); SmallSet large state = abstract SetSpec (FlatSet single-element operations are proved against the same step function in the fs.* units)']
@@ -108,7 +108,8 @@ def units():
           ('assign__%(S)s_rE', ALLP + ['C10']), ('append__%(S)s', ALLP), ('append__%(S)s_rE', ALLP + ['C10']), ('append__pE_pE', ALLP),
           ('at__%(S)s', ['C01', 'C08']), ('at__%(S)s_c', ['C01', 'C08', 'C20']), ('op_index__%(S)s_c', ['C01', 'C20']), ('data__v_c', ['C01', 'C20']),
           ('end__v_c', ['C01', 'C20']), ('front__v_c', ['C01', 'C20']), ('back__v_c', ['C01', 'C20']), ('empty__v_c', ['C01', 'C20']),
-          ('op_eq__r%(V)s_c', ['C01', 'C20']), ('op_lt__r%(V)s_c', ['C01', 'C20']),
+          ('op_eq__r%(V)s_c', ['C01', 'C20']), ('op_lt__r%(V)s_c', ['C01', 'C20']), ('op_ne__r%(V)s_c', ['C01', 'C20']),
+          ('op_le__r%(V)s_c', ['C01', 'C20']), ('op_gt__r%(V)s_c', ['C01', 'C20']), ('op_ge__r%(V)s_c', ['C01', 'C20']),
           ('assign__pE_pE', ALLP), ('insert__pE_pE_pE', ALLP), ('pop_back_val__v', ['C01', 'C02', 'C05', 'C07', 'C09']),
           ('op_index__%(S)s', ['C01']), ('data__v', ['C01']), ('end__v', ['C01']), ('front__v', ['C01']), ('back__v', ['C01']), ('cend__v_c', ['C01', 'C20'])]
     # operations defined one level below VectorImpl (DynamicVector / StaticVector)
@@ -124,7 +125,10 @@ def units():
                     pp = [p for p in props if not (fl == 'static' and p in ('C06', 'C18')) and not (fl == 'std' and p == 'C05')]
                     m2 = m % {'S': sz, 'V': vpat % sz}
                     add('op.%s.%s.%s.%s' % (m2.split('__')[0] + '_' + m2.split('__')[1][:12], fl, et, sz), (vpat % sz) + '__' + m2, pp, fnum, bpat % sz, sz, elem,
-                        throws_reachable=not m2.startswith(('op_eq', 'op_lt', 'pop_back_val', 'op_index', 'data', 'end', 'front', 'back', 'cend')))
+                        throws_reachable=not m2.startswith(('op_eq', 'op_lt', 'op_ne', 'op_le', 'op_gt', 'op_ge', 'pop_back_val', 'op_index', 'data', 'end', 'front', 'back', 'cend')))
+                    if m2.startswith(('op_lt', 'op_le', 'op_gt', 'op_ge', 'op_ne')):
+                        sw = m2.startswith(('op_gt', 'op_le'))
+                        us[-1]['defs'].update({'WITH_EXT_CMP': '1', 'CMP_L': 'o' if sw else 'self', 'CMP_R': 'self' if sw else 'o', 'CMP_NEG': '1' if m2.startswith(('op_le', 'op_ge', 'op_ne')) else '0'})
                     if m2.startswith(('end', 'cend', 'data', 'front', 'back')):
                         us[-1]['defs'].update({'ACC_IS_END': '1' if m2.startswith(('end', 'cend')) else '0', 'ACC_IS_BACK': '1' if m2.startswith('back') else '0'})
                 for m, props, ek in L2D:
@@ -275,7 +279,8 @@ def units():
                 us[-1]['defs']['FS_NE_RESULT'] = '1' if m.startswith('op_ne') else '0'
                 if not m.startswith(('op_eq', 'op_ne')):
                     swapped = m.startswith(('op_gt', 'op_le'))
-                    us[-1]['defs'].update({'FS_CMP_L': 'o' if swapped else 'self', 'FS_CMP_R': 'self' if swapped else 'o'})
+                    us[-1]['defs'].update({'FS_CMP_L': 'o' if swapped else 'self', 'FS_CMP_R': 'self' if swapped else 'o', 'WITH_EXT_CMP': '1',
+                                           'CMP_NEG': '1' if m.startswith(('op_le', 'op_ge')) else '0'})
             if m.startswith(('begin', 'end', 'cbegin', 'cend', 'data', 'front', 'back')):
                 us[-1]['defs'].update({'ACC_IS_END': '1' if m.startswith(('end', 'cend')) else '0', 'ACC_IS_BACK': '1' if m.startswith('back') else '0'})
             if m.startswith('at__'):
@@ -371,7 +376,7 @@ def units():
             for cfg, tier in (('main14dbg', 'quick' if name in ('push_back_rE', 'insert_pE_rE', 'erase_pE_pE', 'resize_u8', 'emplace_back_rE', 'clear_v') else 'thorough'),
                               ('main20', 'quick' if name in ('push_back_rE', 'insert_pE_rrE', 'erase_pE') else 'thorough'),
                               ('main11dbg', 'quick' if name in ('push_back_rrE', 'insert_pE_u8_rE', 'erase_pE', 'assign_u8_rE', 'emplace_pE_rE') else 'thorough')):
-                if cfg == 'main20' and name.startswith('op_lt'):
+                if cfg == 'main20' and name.startswith(('op_lt', 'op_le', 'op_gt', 'op_ge', 'op_ne')):
                     continue            # C++20: the relational operators are synthesised from operator<=> (not lowered: std::lexicographical_compare_three_way)
                 if cfg in ('main14dbg', 'main11dbg') and name.startswith(('append', 'pop_back_val')):
                     continue            # append is part of the non-standard extras: not public in this configuration
